@@ -5,7 +5,9 @@
 
    `walrev` selects the revision of the code: the three defects repaired by the
    fix: commit (replay order, growth not undone, empty write logged as truncation)
-   can each be switched back on for the refuted witnesses. *)
+   can each be switched back on for the refuted witnesses.  `recover` is recovery as in /repo;
+   `recover_g` is recovery with the position guard of fixes/C07-wal-position.diff (a record positioned
+   beyond the current end of the data file is an error); the checks pick the one the source tree has. *)
 From Agdb Require Import Bytes.
 Open Scope nat_scope.
 
@@ -127,6 +129,34 @@ Section Rev.
   (* FileStorage::new on the files left by a crash (also Drop with an open transaction) *)
   Definition recover (st : fstate) : fstate :=
     {| data := replay (records (wal st)) (data st); wal := [] |}.
+
+  (* ---- recovery with the position guard (fixes/C07-wal-position.diff) ----
+     apply_wal_record first compares the record's position with the CURRENT end of the data file
+     (file.seek(End(0)), i.e. the file as already modified by the records replayed before this one):
+     a position beyond it is an error, apply_wal stops with `?` and FileStorage::new returns it
+     (None; the log is not cleared). *)
+  Definition apply_rec_g (d : bytes) (r : nat * bytes) : option bytes :=
+    if Nat.ltb (length d) (fst r) then None else Some (apply_rec d r).
+
+  (* the records in the order they are applied *)
+  Fixpoint apply_all_g (rs : list (nat * bytes)) (d : bytes) : option bytes :=
+    match rs with
+    | [] => Some d
+    | r :: rest =>
+      match apply_rec_g d r with
+      | Some d' => apply_all_g rest d'
+      | None => None
+      end
+    end.
+
+  Definition replay_g (rs : list (nat * bytes)) (d : bytes) : option bytes :=
+    apply_all_g (if w_newest_first rv then rev rs else rs) d.
+
+  Definition recover_g (st : fstate) : option fstate :=
+    match replay_g (records (wal st)) (data st) with
+    | Some d => Some {| data := d; wal := [] |}
+    | None => None
+    end.
 End Rev.
 
 (* writes issued by the storage layer never start beyond the end of the file *)
